@@ -206,9 +206,11 @@ func (c *Chain) DisconnectTip() *Block {
 	}
 	b := c.best[len(c.best)-1]
 	c.best = c.best[:len(c.best)-1]
-	for _, tx := range b.Msg.Transactions[1:] {
-		c.mempool = append(c.mempool, tx)
-	}
+	// the block's transactions come before what is already in the mempool:
+	// later blocks are disconnected first, and mempool order must stay
+	// parent-first
+	back := append([]*wire.MsgTx(nil), b.Msg.Transactions[1:]...)
+	c.mempool = append(back, c.mempool...)
 	clients := append([]*Client(nil), c.clients...)
 	c.mu.Unlock()
 	for _, cl := range clients {
